@@ -1,7 +1,7 @@
 """C12 - removing unused variables never changes results."""
 from __future__ import annotations
 
-from .. import families, checks
+from .. import families, checks, refsem
 from ..core import Prog, witness_tasks, text_id
 
 PROP = "C12"
@@ -37,6 +37,9 @@ def tasks(tier, seed):
     P += families.corpus(["lorentz.ode", "fitzhughnagumo.ode"] if tier == "quick" else None)
     backends = ["numpy", "jax", "c"]
     out = []
+    from . import c13
+    for text, comp in ((c13.MODELS[-1], "A"), (c13.MODELS[0], "B"), (c13.MODELS[2], "Q")):
+        out.append({"family": "SUBODE", "id": text_id(text, comp), "text": text, "opts": {"backends": ["numpy"], "component": comp}})
     for i, p in enumerate(P):
         out.append(dict(p, opts={"backends": [backends[i % 3]] if tier == "quick" and p["family"] != "UNUSED" else backends}))
     return out + witness_tasks(PROP)
@@ -47,7 +50,22 @@ def work(task):
     m, ode = checks.load_all(prog, task["text"])
     if ode is None:
         return prog.result()
-    stiff = sorted(m.states)[:1]
+    if task.get("opts", {}).get("component"):
+        # a sub-model with missing variables: its slot layout (incl. the missing-variable array) must not change either
+        ode = ode.get_component(task["opts"]["component"]).to_ode()
+        from ..pipeline import gen_py
+        try:
+            import re as _re
+            codes = [gen_py(ode, schemes=["explicit_euler"], remove_unused=ru) for ru in (False, True)]
+            mi = [_re.search(r"^missing = (\{.*\})$", c, _re.M) for c in codes]
+            prog.fact("numpy|missing_index|same", bool(mi[0]) and bool(mi[1]) and mi[0].group(1) == mi[1].group(1), "LayoutChanged",
+                      f"missing-variable layout changes with remove_unused: {mi[0] and mi[0].group(1)} vs {mi[1] and mi[1].group(1)}")
+        except Exception as e:
+            prog.fact("numpy|sub-ode|generate", False, "GenerationError", f"{type(e).__name__}: {e}"[:200])
+        m = None
+    stiff = sorted(refsem.parse_model(task["text"]).states)[:1] if m is None else sorted(m.states)[:1]
+    if m is None:
+        stiff = [s.name for s in ode.states][:1]
     for backend in task.get("opts", {}).get("backends", ["numpy"]):
         kw = dict(schemes=SCHEMES, stiff_states=stiff)
         v0 = checks.make_view(prog, ode, backend, label=f"{backend}|get_code|keep", remove_unused=False, **kw)
@@ -59,7 +77,7 @@ def work(task):
         for kind in ("state", "parameter", "monitor"):
             prog.fact(f"{backend}|{kind}_index|same", v0.index_map(kind) == v1.index_map(kind), "LayoutChanged",
                       f"{kind} index map changes with remove_unused: {v0.index_map(kind)} vs {v1.index_map(kind)}")
-        dom = checks.model_domain(prog, m)
+        dom = checks.model_domain(prog, m) if m is not None else []
         for fn in ["rhs", "monitor_values"] + SCHEMES:
             r0 = checks.sym_function(prog, v0, fn, label=f"{backend}|{fn}|keep|exec")
             r1 = checks.sym_function(prog, v1, fn, label=f"{backend}|{fn}|remove|exec")
